@@ -308,8 +308,97 @@ Proof.
   - cbn. split; lra.
 Qed.
 
-(** non-vacuity of the main path: with no flow capacity thresholds exceeded and no
-    flood, 86400 kg enter 1000 m3 + 86400 m3 released and are split by volume *)
+(** ** non-vacuity of the main path *)
+Lemma Rpow_1_l y : Rpow 1 y = 1.
+Proof.
+  unfold Rpow. destruct (Req_EM_T y 0); [reflexivity|]. destruct (Req_EM_T 1 0); [lra|].
+  unfold Rpower. rewrite ln_1, Rmult_0_r. apply exp_0.
+Qed.
+Lemma Rpow_0_l y : y <> 0 -> Rpow 0 y = 0.
+Proof.
+  intros Hy. unfold Rpow. destruct (Req_EM_T y 0); [contradiction|]. destruct (Req_EM_T 0 0); [reflexivity|lra].
+Qed.
+
+(** unit geometry: capacity thresholds are 0 at zero flow and 8640 t/day at 1 m3/s *)
+Lemma fine_STC_zero_flow S w n v : @fine_STC R RArith 0 S w n v = 0.
+Proof.
+  unfold fine_STC. runfold. rewrite Rpow_0_l by lra. unfold Rdiv. ring.
+Qed.
+Lemma fine_STC_unit : @fine_STC R RArith 1 1 1 1 1 = 8640.
+Proof.
+  unfold fine_STC, FS_SECONDS_PER_DAY. runfold. rewrite !Rpow_1_l. field.
+Qed.
+
+(** below bank-full there is no floodplain deposition *)
+Lemma floodplain_zero_below_bankfull q M bff v A : q < bff ->
+  @floodPlainDepositionEmperical R RArith q M bff v A = 0.
+Proof.
+  intros H. unfold floodPlainDepositionEmperical. runfold.
+  assert (E : Rltb q bff = true) by (apply Rltb_true; exact H). rewrite E. reflexivity.
+Qed.
+
+(** standing water (no transport capacity): everything deposits, as far as there is room *)
+Lemma inChannel_standing_water TV M c w S n vs vr maxS :
+  0 < TV -> 0 < M -> M <= maxS - c ->
+  @inChannelStorage R RArith 0 TV M c w S n vs vr maxS = M.
+Proof.
+  intros HT HM Hroom. unfold inChannelStorage, FS_KG_TO_TONNES, FS_TONNES_TO_KG. runfold.
+  replace (0 * 1) with 0 by lra. rewrite !fine_STC_zero_flow.
+  assert (E1 : Rleb TV 0 = false) by (apply Rleb_false; lra). rewrite E1.
+  assert (E2 : Rltb 0 (1 * (M * (1 / 1000))) = true) by (apply Rltb_true; lra). rewrite E2.
+  rewrite Rmin_left; lra.
+Qed.
+
+(** clean water at 1 m3/s over unit geometry (capacity 8640 t/day) picks up the whole store *)
+Lemma inChannel_clean_water TV c maxS :
+  0 < TV -> 0 <= c <= 8640000 ->
+  @inChannelStorage R RArith 1 TV 0 c 1 1 1 1 1 maxS = - c.
+Proof.
+  intros HT Hc. unfold inChannelStorage, FS_KG_TO_TONNES, FS_TONNES_TO_KG. runfold.
+  replace (1 * 1) with 1 by lra. rewrite !fine_STC_unit.
+  assert (E1 : Rleb TV 0 = false) by (apply Rleb_false; lra). rewrite E1.
+  assert (E2 : Rltb 8640 (1 * (0 * (1 / 1000))) = false) by (apply Rltb_false; lra). rewrite E2.
+  assert (E3 : Rltb (1 * (0 * (1 / 1000))) 8640 = true) by (apply Rltb_true; lra). rewrite E3.
+  rewrite Rmin_right; lra.
+Qed.
+
+Definition fine_unit_params (bff : R) : fine_paramsR := mk_fine_params bff 0 0 1 1 1 1 1 1 1 1 1 1.
+
+Ltac fine_proj :=
+  cbn [fp_bankFullFlow fp_fineSedSettVelocityFlood fp_floodPlainArea fp_linkWidth fp_linkLength fp_linkSlope
+       fp_bankHeight fp_propBankHeightForFineDep fp_sedBulkDensity fp_manningsN fp_fineSedSettVelocity
+       fp_fineSedReMobVelocity fp_durationInSeconds fi_upstreamMass fi_lateralMass fi_reachLocalMass
+       fi_reachVolume fi_outflow].
+
+(** deposition branch: 5 kg arrive in standing water: all 5 kg are deposited *)
+Example fine_deposition_example :
+  let r := Rfine_step (fine_unit_params 1) (0, 0) (mk_fine_in 5 0 0 1 0) in
+  fst r = (5, 0) /\ fo_loadToChannelDeposition (snd r) = 5 /\ fo_loadDownstream (snd r) = 0 /\
+  fo_floodplainDeposit (snd r) = 0 /\ fo_flushed (snd r) = 0.
+Proof.
+  cbn zeta. unfold fine_step, fine_unit_params, fine_maxStorage, FS_TONNES_TO_KG. runfold. fine_proj.
+  rewrite floodplain_zero_below_bankfull by lra.
+  rewrite inChannel_standing_water by lra.
+  assert (E : Rltb 0 (1 + 0 * 1) = true) by (apply Rltb_true; lra). rewrite E. cbn.
+  repeat split; try lra. f_equal; field.
+Qed.
+
+(** remobilisation branch: clean water over a 5 kg channel store picks up the whole store (and
+    not more): net deposition -5; half leaves downstream, half stays in the 1 m3 reach *)
+Example fine_remobilisation_example :
+  let r := Rfine_step (fine_unit_params 2) (5, 0) (mk_fine_in 0 0 0 1 1) in
+  fst r = (0, 5 / 2) /\ fo_loadToChannelDeposition (snd r) = - 5 /\ fo_loadDownstream (snd r) = 5 / 2 /\
+  fo_channelStoreBefore (snd r) = 5 /\ fo_flushed (snd r) = 0.
+Proof.
+  cbn zeta. unfold fine_step, fine_unit_params, fine_maxStorage, FS_TONNES_TO_KG. runfold. fine_proj.
+  rewrite floodplain_zero_below_bankfull by lra.
+  replace (0 + (0 + 0 + 0) * 1 - 0) with 0 by lra.
+  rewrite inChannel_clean_water by lra.
+  assert (E : Rltb 0 (1 + 1 * 1) = true) by (apply Rltb_true; lra). rewrite E. cbn.
+  repeat split; try lra; try field. f_equal; field.
+Qed.
+
+(** no water at all: nothing goes downstream, nothing stays in the stream *)
 Example fine_flush_needs_no_water p c m x :
   fi_reachVolume x + fi_outflow x * fp_durationInSeconds p <= 0 ->
   fo_loadDownstream (snd (Rfine_step p (c, m) x)) = 0 /\ snd (fst (Rfine_step p (c, m) x)) = 0.
